@@ -29,6 +29,15 @@ def t3(sx, nbr, nbw, nmaxb, oldlens, lens, emulated):
     return ndefflow.roundtrip(sx, w, n)
 
 
+def t4(sx, ver, mle, mlc, mfs, oldlens, lens, typ, fsci):
+    oldlen = sx.pick("oldlen", oldlens)
+    mle = sx.int("mle", mle[0], mle[1])
+    mlc = sx.int("mlc", mlc[0], mlc[1])
+    w = worlds.T4World(sx, ver, mle, mlc, mfs, oldlen, typ=typ, fsci=fsci)
+    n = sx.pick("n", [x for x in lens_for(w.cap, lens)])
+    return ndefflow.roundtrip(sx, w, n)
+
+
 def lens_for(cap, lens):
     out = []
     for x in lens:
@@ -112,6 +121,22 @@ def partitions(tier):
                               fn="t3", params=dict(nbr=nbr, nbw=nbw, nmaxb=nmaxb, oldlens=[0, 5, 17],
                                                    lens=[0, 1, 15, 16, 17, 32, "cap-1", "cap", "cap+1"],
                                                    emulated=emulated)))
+    # ---- Type 4: MLe, MLc symbolic over their whole valid range (one at a
+    # time for the large file; both for the small one)
+    small = [(0x20, "A", 8), (0x30, "B", 5), (0x20, "A", 2)]
+    if tier != "quick":
+        small += [(0x30, "A", 8), (0x20, "B", 5), (0x30, "A", 2)]
+    for ver, typ, fsci in small:
+        parts.append(dict(name="t4:%02x:%s:%d:small" % (ver, typ, fsci), fn="t4",
+                          params=dict(ver=ver, mle=[15, 0xFFFF], mlc=[1, 0xFFFF], mfs=16,
+                                      oldlens=[0, 3], lens=[0, 1, 7, "cap", "cap+1"],
+                                      typ=typ, fsci=fsci)))
+    parts.append(dict(name="t4:20:A:8:big:mlc", fn="t4",
+                      params=dict(ver=0x20, mle=[255, 255], mlc=[250, 0xFFFF], mfs=300,
+                                  oldlens=[0], lens=[256, "cap"], typ="A", fsci=8)))
+    parts.append(dict(name="t4:20:A:8:big:mle", fn="t4",
+                      params=dict(ver=0x20, mle=[250, 0xFFFF], mlc=[255, 255], mfs=300,
+                                  oldlens=[0], lens=[256, "cap"], typ="A", fsci=8)))
     if tier != "quick":
         parts.append(dict(name="t3:big", fn="t3", params=dict(nbr=12, nbw=8, nmaxb=300, oldlens=[0],
                                                              lens=[4081, "cap"], emulated=False)))
